@@ -32,7 +32,6 @@ RULE = ("full option product; one case = one combination; non-trivial = combinat
         "optimum differs from the zero vector")
 ASSUMPTIONS = ["reference lower bound from a dual point (sound by weak duality) with gap <= 1e-9", "numpy.random seeded before each run (MaxEig draws)"]
 CHUNK = 4
-CASE_TIMEOUT = {"quick": 240, "thorough": 600}
 
 SOLVERS = [None, "ConjugateGradient", "GradientMethod", "PrimalDualHybridGradient", "ADMM"]
 STEPV = {None: ["default"], "ConjugateGradient": ["default", "P"], "GradientMethod": ["default", "alpha"],
